@@ -274,6 +274,92 @@ def replay_shrink(cfgs):
     return res
 
 
+def protocol_catalogue():
+    """Estimators x use methods for the Protocol module: (name, make, fit(obj, d), {use: (call(obj, d), cols(dfit) or None)})."""
+    from sklearn.metrics.pairwise import rbf_kernel
+    import skmatter.feature_selection as F
+    from skmatter.decomposition import KernelPCovR, PCovR
+    from skmatter.linear_model import OrthogonalRegression, Ridge2FoldCV
+    from skmatter.preprocessing import KernelNormalizer, SparseKernelCenterer, StandardFlexibleScaler
+    from skmatter.sample_selection import DirectionalConvexHull
+    rng = np.random.default_rng(23)
+    dims = {"A": (9, 4, 2), "B": (7, 3, 1)}
+    tr, us = {}, {}
+    for d, (n, m, p) in dims.items():
+        X = rng.normal(size=(n, m)); X -= X.mean(0)
+        Y = rng.normal(size=(n, p)); Y -= Y.mean(0)
+        tr[d] = (X, Y)
+        us[d] = (rng.normal(size=(5, m)), rng.normal(size=(5, p)))
+    act = {d: tr[d][0][: dims[d][1] - 1] for d in dims}          # active sets for the sparse centerer
+
+    def k(a, b):
+        return rbf_kernel(a, b, gamma=0.3)
+    cat = []
+    cat.append(("PCovR", lambda: PCovR(mixing=0.5, n_components=2), lambda o, d: o.fit(*tr[d]),
+                {"transform": (lambda o, d: o.transform(us[d][0]), lambda df: 2), "predict": (lambda o, d: o.predict(us[d][0]), None),
+                 "score": (lambda o, d: np.atleast_2d(o.score(*us[d])).repeat(5, 0), None)}))
+    cat.append(("KernelPCovR", lambda: KernelPCovR(mixing=0.5, n_components=2, kernel="rbf", gamma=0.3), lambda o, d: o.fit(*tr[d]),
+                {"transform": (lambda o, d: o.transform(us[d][0]), lambda df: 2), "predict": (lambda o, d: o.predict(us[d][0]), None),
+                 "score": (lambda o, d: np.atleast_2d(o.score(*us[d])).repeat(5, 0), None)}))
+    cat.append(("StandardFlexibleScaler", lambda: StandardFlexibleScaler(column_wise=True), lambda o, d: o.fit(tr[d][0]),
+                {"transform": (lambda o, d: o.transform(us[d][0]), lambda df: dims[df][1]),
+                 "inverse_transform": (lambda o, d: o.inverse_transform(us[d][0]), lambda df: dims[df][1])}))
+    cat.append(("KernelNormalizer", lambda: KernelNormalizer(), lambda o, d: o.fit(k(tr[d][0], tr[d][0])),
+                {"transform": (lambda o, d: o.transform(k(rng.normal(size=(5, dims[d][1])), tr[d][0])), lambda df: dims[df][0])}))
+    cat.append(("SparseKernelCenterer", lambda: SparseKernelCenterer(), lambda o, d: o.fit(k(tr[d][0], act[d]), k(act[d], act[d])),
+                {"transform": (lambda o, d: o.transform(k(rng.normal(size=(5, dims[d][1])), act[d])), lambda df: dims[df][1] - 1)}))
+    for nm, cls, needy in (("feature.FPS", F.FPS, False), ("feature.CUR", F.CUR, False), ("feature.PCovFPS", F.PCovFPS, True), ("feature.PCovCUR", F.PCovCUR, True)):
+        cat.append((nm, (lambda cls=cls: cls(n_to_select=2)), (lambda o, d, needy=needy: o.fit(tr[d][0], tr[d][1][:, 0]) if needy else o.fit(tr[d][0])),
+                    {"transform": (lambda o, d: o.transform(us[d][0]), lambda df: 2)}))
+    cat.append(("OrthogonalRegression", lambda: OrthogonalRegression(), lambda o, d: o.fit(tr[d][0], tr[d][0][:, ::-1] * 0.5),
+                {"predict": (lambda o, d: o.predict(us[d][0]), None)}))
+    cat.append(("Ridge2FoldCV", lambda: Ridge2FoldCV(alphas=[0.1, 1.0]), lambda o, d: o.fit(*tr[d]),
+                {"predict": (lambda o, d: np.reshape(o.predict(us[d][0]), (5, -1)), None)}))
+    cat.append(("DirectionalConvexHull", lambda: DirectionalConvexHull(low_dim_idx=[0]), lambda o, d: o.fit(tr[d][0], tr[d][1][:, 0]),
+                {"score_samples": (lambda o, d: np.reshape(o.score_samples(us[d][0], us[d][1][:, 0]), (5, -1)), lambda df: 1),
+                 "score_feature_matrix": (lambda o, d: o.score_feature_matrix(us[d][0]), lambda df: dims[df][1] - 1)}))
+    return cat
+
+
+def replay_protocol(hists):
+    res = {"agree": 0, "disagree": [], "by_class": {}}
+    for name, make, fit, uses in protocol_catalogue():
+        for uname, (call, cols) in uses.items():
+            for hh in hists:
+                obj = make()
+                fitted = None
+                ok = True
+                trace = []
+                for step in hh["hist"]:
+                    try:
+                        with warnings.catch_warnings():
+                            warnings.simplefilter("ignore")
+                            if step["op"] == "fit":
+                                fit(obj, step["d"])
+                                fitted = step["d"]
+                                got = "ok"
+                            else:
+                                o = np.asarray(call(obj, step["d"]))
+                                got = "ok"
+                                if o.shape[0] != 5 or (cols is not None and fitted is not None and (o.ndim != 2 or o.shape[1] != cols(fitted))):
+                                    got = "wrong-shape%s" % (o.shape,)
+                    except (ValueError, TypeError, AttributeError, IndexError, KeyError) as ex:
+                        got = "rejected"
+                    except Exception as ex:  # noqa
+                        got = "error:" + type(ex).__name__
+                    trace.append(got)
+                    if got != step["out"]:
+                        ok = False
+                key = "%s.%s" % (name, uname)
+                a, b = res["by_class"].get(key, (0, 0))
+                res["by_class"][key] = (a + int(ok), b + int(not ok))
+                if ok:
+                    res["agree"] += 1
+                else:
+                    res["disagree"].append({"class": key, "history": [(s["op"], s["d"], s["out"]) for s in hh["hist"]], "got": trace})
+    return res
+
+
 def run(tier):
     r = core.run_tlc("Validation.tla", cfg="mc/Validation.cfg", workers=1)
     if r["error"]:
@@ -296,6 +382,18 @@ def run(tier):
         print("extras: %s %d configurations: %d agree, %d disagree" % (name, len(c2), rr["agree"], len(rr["disagree"])))
         for d in rr["disagree"][:6]:
             print("  DISAGREE", d)
+    rp = core.run_tlc("Protocol.tla", cfg="mc/Protocol.cfg", workers=1)
+    if rp["error"]:
+        raise core.Machinery("Protocol model: " + rp["error"])
+    hists = [e for e in rp["records"] if e.get("k") == "H"]
+    pr = replay_protocol(hists)
+    out["fit_use_protocol"] = {"histories": len(hists), "replays_agreeing": pr["agree"], "replays_disagreeing": len(pr["disagree"]),
+                               "by_class_method": {k_: {"agree": v[0], "disagree": v[1]} for k_, v in pr["by_class"].items()}, "disagreements": pr["disagree"][:20]}
+    print("extras: fit/use protocol: %d histories x %d class.methods: %d agree, %d disagree" % (len(hists), len(pr["by_class"]), pr["agree"], len(pr["disagree"])))
+    for k_, v in pr["by_class"].items():
+        if v[1]:
+            first = [d for d in pr["disagree"] if d["class"] == k_][:1]
+            print("  DISAGREE %s: %d histories%s" % (k_, v[1], (" e.g. %s -> %s" % (first[0]["history"], first[0]["got"])) if first else ""))
     loc = {}
     for name, expect in (("gentle", None), ("steep", "NoExhaustion")) + ((("gentle_big", None),) if tier == "thorough" else ()):
         r3 = core.run_tlc("Localization.tla", cfg="mc/Localization_%s.cfg" % name, workers=core.NCPU, timeout=3600)
